@@ -138,6 +138,7 @@ func DefaultFuncMap(lang *LanguageOpts) template.FuncMap {
 		"httpStatus":          httpStatus,
 		"cleanupEnumVariant":  cleanupEnumVariant,
 		"gt0":                 gt0,
+		"decimal":             decimal,
 		"path":                errorPath,
 		"cmdName": func(in interface{}) (string, error) {
 			// builds the name of a CLI command for a single operation
@@ -987,4 +988,13 @@ func markdownBlock(in string) string {
 	in = strings.TrimSpace(in)
 
 	return mdNewLineReplacer.Replace(in)
+}
+
+// decimal prints a number without exponent (e.g. 1000000 rather than 1e+06), the notation the spec scanner
+// understands in the validation comments of generated models.
+func decimal(v *float64) string {
+	if v == nil {
+		return ""
+	}
+	return strconv.FormatFloat(*v, 'f', -1, 64)
 }
